@@ -790,12 +790,65 @@ Lemma multi_colon_values_kept :
   snd (parse_difficulty difficulty_default (lit "CircleSize:4:5")) = Rejected.
 Proof. vm_compute. repeat split. Qed.
 
-(* D10: a bookmark outside +-(2^31-1) is stored; a padded one is dropped *)
-Lemma bookmarks_limit_refuted :
-  exists line n, In n (ed_bookmarks (fst (parse_editor editor_default line))) /\ n < - max_parse_value.
+(* ---------- bookmarks: numbers of the format like any other (D10 repaired) ---------- *)
+
+Definition within_parse_limits (n : Z) : Prop := - max_parse_value <= n <= max_parse_value.
+
+Lemma In_filter_map {A B : Type} (f : A -> option B) (l : list A) (y : B) :
+  In y (filter_map f l) <-> exists x, In x l /\ f x = Some y.
 Proof.
-  exists (lit "Bookmarks: -2147483648"), (-2147483648). split; [vm_compute; auto|reflexivity].
+  induction l as [|a r IH]; cbn [filter_map In].
+  - split; [intros []|intros (x & [] & _)].
+  - destruct (f a) as [b|] eqn:E.
+    + cbn [In]. rewrite IH. split.
+      * intros [<-|(x & Hx & Hf)]; [exists a; auto|exists x; auto].
+      * intros (x & [<-|Hx] & Hf); [left; congruence|right; exists x; auto].
+    + rewrite IH. split.
+      * intros (x & Hx & Hf). exists x; auto.
+      * intros (x & [<-|Hx] & Hf); [congruence|exists x; auto].
 Qed.
-Lemma bookmarks_padded_dropped :
-  ed_bookmarks (fst (parse_editor editor_default (lit "Bookmarks: 1, 5,7 ,9"))) = [1; 9].
-Proof. vm_compute. reflexivity. Qed.
+
+(* which numbers a Bookmarks value yields: one per comma-separated element whose
+   TRIMMED text is an integer literal within +-(2^31-1) -- padded elements count,
+   everything else (junk, empty elements, +-2^31 and beyond) is skipped *)
+Lemma parse_bookmarks_elements v n :
+  In n (parse_bookmarks v) <->
+  exists piece, In piece (split_on comma v) /\ int_literal true (trim piece) n /\ within_parse_limits n.
+Proof.
+  unfold parse_bookmarks. rewrite In_filter_map. split.
+  - intros (x & Hx & Hf). exists x. split; [exact Hx|]. exact (proj1 (pn_i32_spec x n) Hf).
+  - intros (x & Hx & Hf). exists x. split; [exact Hx|]. exact (proj2 (pn_i32_spec x n) Hf).
+Qed.
+
+Lemma parse_bookmarks_within v : Forall within_parse_limits (parse_bookmarks v).
+Proof.
+  apply Forall_forall. intros n Hn. apply parse_bookmarks_elements in Hn.
+  destruct Hn as (_ & _ & _ & H). exact H.
+Qed.
+
+Lemma parse_editor_bookmarks st l :
+  Forall within_parse_limits (ed_bookmarks st) ->
+  Forall within_parse_limits (ed_bookmarks (fst (parse_editor st l))).
+Proof.
+  intros H. unfold parse_editor.
+  destruct (kv_parse editor_key_from_str (trim_comment l)) as [[key v]|]; [|exact H].
+  destruct key; cbn [fst]; try (destruct (pn_f64 v); exact H); try (destruct (pn_i32 v); exact H).
+  cbn [ed_bookmarks set_ed_bookmarks]. apply parse_bookmarks_within.
+Qed.
+
+(* every stored bookmark lies within +-(2^31-1): invariant of every run *)
+Theorem editor_run_bookmarks lines st :
+  Forall within_parse_limits (ed_bookmarks st) ->
+  Forall within_parse_limits (ed_bookmarks (run_lines parse_editor st lines)).
+Proof.
+  revert st. induction lines as [|l ls IH]; intros st H; [exact H|].
+  apply (IH (fst (parse_editor st l))). now apply parse_editor_bookmarks.
+Qed.
+
+(* the formerly deviating inputs: padded elements are read, -2^31 is skipped *)
+Lemma bookmarks_repaired :
+  ed_bookmarks (fst (parse_editor editor_default (lit "Bookmarks: 1, 2 ,-2147483648,2147483647,x,,3"))) = [1; 2; 2147483647; 3] /\
+  ed_bookmarks (fst (parse_editor editor_default (lit "Bookmarks: 1, 5,7 ,9"))) = [1; 5; 7; 9] /\
+  ed_bookmarks (fst (parse_editor editor_default (lit "Bookmarks: -2147483648"))) = [] /\
+  ed_bookmarks (fst (parse_editor editor_default (lit "Bookmarks: -2147483647,2147483648"))) = [-2147483647].
+Proof. vm_compute. repeat split. Qed.
